@@ -6,6 +6,7 @@ import (
 	"context"
 	"errors"
 	"fmt"
+	pkgerrors "github.com/pkg/errors"
 	"strings"
 	"sync/atomic"
 	"testing"
@@ -49,6 +50,8 @@ type ctrlWorld struct {
 }
 
 var errListFault = errors.New("fake server: list fault")
+
+var canceledN int
 
 func (w *ctrlWorld) hook(component, format string) {
 	if time.Now().Year() > 2200 {
@@ -117,7 +120,15 @@ func listFault(kind string) (runtime.Object, error) {
 		// the way client-go's typed clients fail: a (usable, empty) list object together with the error
 		return kv.PodList(nil, "0"), errListFault
 	case "canceled":
-		// a transport-level abort: the error is context.Canceled although nobody is shutting down
+		// a transport-level abort: the error is context.Canceled although nobody is shutting down — bare, wrapped the
+		// standard way, or wrapped with pkg/errors (whose Cause() sees through its own wrapping only)
+		canceledN++
+		switch canceledN % 3 {
+		case 0:
+			return nil, context.Canceled
+		case 1:
+			return nil, pkgerrors.Wrap(context.Canceled, "fake server: request aborted")
+		}
 		return nil, fmt.Errorf("fake server: request aborted: %w", context.Canceled)
 	case "nil":
 		return nil, nil
@@ -563,7 +574,32 @@ func runCtrlScenario(t *testing.T, tr *tracer, idx int, seed uint64, mode string
 				w.step("settle-relist", func() { w.advance(w.period + w.period/6 + w.srv.ListLatency) })
 			}
 		}
-		if ws := w.srv.LiveWatches(); len(ws) > 0 && r.Chance(1, 4) && !isClosed(root.Done()) {
+		if ws := w.srv.LiveWatches(); len(ws) > 0 && w.period >= 1000*time.Hour && r.Chance(1, 3) && !isClosed(root.Done()) {
+			// (only without relists: a relist that arrives while the Watch call hangs makes the watcher wait for that call
+			// in its reset, and the controller with it — a client that breaks the cancellation contract stalls both)
+			// a client that is slow to give up: a Watch call is outstanding when the controller is closed and returns
+			// only 3 s after its context was cancelled. Everything below the controller closes at once all the same;
+			// the controller itself is done when its client has let go.
+			w.srv.CancelLag = 3 * time.Second
+			w.watchBlock = true
+			tr.line(kv.L("watch-block"))
+			tr.line(kv.L("inject", "close"))
+			ws[len(ws)-1].CloseStream()
+			w.advance(kcache.VerifWatchRetryDelay + kcache.VerifWatchRetryDelay/2)
+			w.wait()
+			tr.line(kv.L("cancel-lag", "on"))
+			if r.Chance(1, 2) {
+				tr.line(kv.L("closeroot"))
+				go root.Close()
+			} else {
+				tr.line(kv.L("cancel"))
+				w.cancel()
+			}
+			w.wait()
+			w.observe()
+			tr.line(kv.L("cancel-lag", "off"))
+			time.Sleep(4 * time.Second)
+		} else if ws := w.srv.LiveWatches(); len(ws) > 0 && r.Chance(1, 4) && !isClosed(root.Done()) {
 			// the stream ends, and the shutdown arrives at the very instant the reconnect timer fires
 			tr.line(kv.L("inject", "close"))
 			ws[len(ws)-1].CloseStream()
